@@ -1,8 +1,10 @@
 def all_checks():
+    from verifkit.checks import concurrency_checks
     from verifkit.checks import engine_checks
+    from verifkit.checks import reuse_check
 
     checks = {}
-    for mod in (engine_checks,):
+    for mod in (engine_checks, concurrency_checks, reuse_check):
         for c in mod.CHECKS:
             checks[c.id] = c
     return checks
